@@ -101,8 +101,15 @@ class GarbageCollector:
         # Add manifest lists from all snapshots
         for snapshot in metadata.snapshots:
             m_list_path = snapshot.manifest_list
-            if m_list_path:
-                reachable_manifest_lists.add(self._normalize_path(m_list_path))
+            if not m_list_path or not isinstance(m_list_path, str):
+                # Every committed snapshot names its manifest list. A retained
+                # snapshot without one means the metadata cannot be trusted;
+                # skipping it would classify all of its files as orphans.
+                raise GarbageCollectionAborted(
+                    f"Aborting GC: snapshot {snapshot.snapshot_id} has no manifest list "
+                    f"({m_list_path!r}); reachability cannot be determined. Nothing was deleted."
+                )
+            reachable_manifest_lists.add(self._normalize_path(m_list_path))
 
         # Process manifest lists to find manifests and data files
         for m_list_path in reachable_manifest_lists:
